@@ -65,17 +65,21 @@ CLAIMS = {
             "(abstract interpretation through super().__init__ chains), no method reachable from fit/apply-type methods "
             "overwrites a constructor parameter, fit sets the fitted flag on every path, returns self and cannot reject "
             "after setting it, every resolved (class, apply-method) pair passes the not-fitted guard on every path to a "
-            "normal return, and the composite get/set parameter plumbing keeps its documented order and separator. "
+            "normal return (and before any use of its own state), constructor parameters are not mutated in place (also through locals, "
+            "closures and helpers that write to the object they are handed), and the composite get/set parameter plumbing keeps its "
+            "documented order, separator, name source, deep switch and component views (exact path-condition clauses). "
             "Covers the full class x method product the runtime suite cannot import.", "3/C04"),
     "C20": ("Call discipline of input validation: every forecaster/composite/splitter/tuning/evaluate/train-test-split/horizon "
             "entry point passes the relevant validator on every path before first use (must-call per concrete class), the validators' "
-            "own rejection predicates equal their specification by exhaustive truth table, string dispatch has a rejecting default, "
+            "own rejection predicates (incl. both values of their option flags, their rejecting defaults, accepted container types and the "
+            "subjects they are applied to) equal their specification by exhaustive truth table, string dispatch has a rejecting default, "
             "window feasibility is entailed by dominating guards (affine facts), no fitted flag can be set on a rejecting path, and the "
             "two horizon mixins implement their decision tables. Decides which inputs can reach a result without a check, not the "
             "exception type raised inside third-party code.", "3/C20"),
     "C01": ("Window/cutoff/test index arithmetic of the four splitters and _split_by_fh as affine identities over "
             "symbolic n, fh, window, step; feasibility guards entail in-bounds and are tight; reported cutoffs "
-            "equal yielded cutoffs; unshuffled partition. All configurations of the quantifier are covered "
+            "equal yielded cutoffs; unshuffled partition; the helpers the interpreter models (_check_y, check_time_index, _check_fh, "
+            "fh.to_indexer) conform to their models. All configurations of the quantifier are covered "
             "symbolically (every rule instance is evaluated once per construct and scenario).", "3/C01"),
 }
 
